@@ -19,7 +19,20 @@
 EXTENDS Integers, Sequences, TLC, FiniteSets
 
 CONSTANTS MaxBefore,   \* valid declarations before the invalid one (0..MaxBefore)
-          MaxAfter     \* valid declarations after it (only if it was not rejected at once)
+          MaxAfter,    \* valid declarations after it (only if it was not rejected at once)
+          MaxBeforeMarket   \* declarations before a configured market (it is the last declaration)
+
+(* A configured goods market (world "model"): the country of the market has `cand` sectors that carry *)
+(* the supply variable SUP_<market> (candidates for the residual supply), AddSupplier(x) without an    *)
+(* equation was called `named` times (the last call names the residual supplier), and one rule-based  *)
+(* supplier AddSupplier(x, eqn) may be given: a local candidate, another local sector, a sector of     *)
+(* another country with the SAME short code as a local candidate, or with a different code.           *)
+(* The supply is well defined iff a residual supplier was named, or the search finds exactly one      *)
+(* candidate.  Rule-based suppliers never make an ambiguous or empty search well defined.             *)
+Rules == {"none", "local_cand", "local_other", "foreign_same", "foreign_diff"}
+MarketCfgs == { c \in [cand : 0..2, named : 0..2, rule : Rules] : c.rule = "local_cand" => c.cand >= 1 }
+WellFormedMarket(c) == c.named >= 1 \/ c.cand = 1
+NoCfg == [cand |-> 0, named |-> 0, rule |-> "none"]
 
 Worlds == {"block", "model"}
 ValidKinds(w) == IF w = "block" THEN {"line_endo", "line_lag", "line_exo"}
@@ -53,24 +66,33 @@ SetS(s) == /\ world' = s.world /\ phase' = s.phase /\ err' = s.err /\ hasNumbers
 Init == /\ world \in Worlds /\ phase = "declaring" /\ err = FALSE /\ hasNumbers = FALSE
         /\ bad = FALSE /\ invalidSeen = FALSE /\ decls = << >>
 
+marketSeen == \E i \in 1..Len(decls) : decls[i].kind = "market"
 AfterCount == LET bads == { i \in 1..Len(decls) : ~decls[i].valid }
               IN IF bads = {} THEN 0 ELSE Len(decls) - (CHOOSE i \in bads : TRUE)
 
+(* a configured market: valid or invalid according to WellFormedMarket; always the last declaration *)
+DeclareMarket(c) ==
+    /\ phase = "declaring" /\ world = "model" /\ ~invalidSeen /\ ~marketSeen
+    /\ Len(decls) <= MaxBeforeMarket
+    /\ SetS(IF WellFormedMarket(c) THEN DeclareValidOp(S) ELSE DeclareInvalidOp(S, "market"))
+    /\ decls' = Append(decls, [kind |-> "market", valid |-> WellFormedMarket(c), cfg |-> c])
+
 DeclareValid(kind) ==
-    /\ phase = "declaring" /\ kind \in ValidKinds(world)
+    /\ phase = "declaring" /\ kind \in ValidKinds(world) /\ ~marketSeen
     /\ IF invalidSeen THEN AfterCount < MaxAfter ELSE Len(decls) < MaxBefore
     /\ SetS(DeclareValidOp(S))
-    /\ decls' = Append(decls, [kind |-> kind, valid |-> TRUE])
+    /\ decls' = Append(decls, [kind |-> kind, valid |-> TRUE, cfg |-> NoCfg])
 
 DeclareInvalid(kind) ==
-    /\ phase = "declaring" /\ ~invalidSeen /\ kind \in InvalidKinds(world)
+    /\ phase = "declaring" /\ ~invalidSeen /\ ~marketSeen /\ kind \in InvalidKinds(world)
     /\ SetS(DeclareInvalidOp(S, kind))
-    /\ decls' = Append(decls, [kind |-> kind, valid |-> FALSE])
+    /\ decls' = Append(decls, [kind |-> kind, valid |-> FALSE, cfg |-> NoCfg])
 
 Main == /\ phase = "declaring" /\ SetS(MainOp(S)) /\ UNCHANGED decls
 
 Next == \/ \E kind \in ValidKinds(world) : DeclareValid(kind)
         \/ \E kind \in InvalidKinds(world) : DeclareInvalid(kind)
+        \/ \E c \in MarketCfgs : DeclareMarket(c)
         \/ Main
 
 Spec == Init /\ [][Next]_vars
